@@ -56,7 +56,6 @@ def rename_variable(variable: str, *, static: bool, private: bool) -> str:
     if renamed_variable.isidentifier():
         return renamed_variable
 
-    if renamed_variable:
-        return variable  # Without its underscore, a name like _1st is not a name
-
-    raise RuntimeError(f"Unable to find a replacement name for {variable}")
+    # Without its underscore, a name like _1st is not a name, and a name without any of the
+    # letters that the convention is about, like 变量, has no other form
+    return variable
